@@ -30,6 +30,11 @@ def oracle(kinds, explicit):
 def build(lines, explicit, entry):
     if entry == "init":
         g = gfapy.Gfa(lines, version=explicit, vlevel=1) if explicit else gfapy.Gfa(lines, vlevel=1)
+    elif entry == "objects":
+        g = gfapy.Gfa(version=explicit, vlevel=1) if explicit else gfapy.Gfa(vlevel=1)
+        for l in lines:
+            g.add_line(gfapy.Line(l))               # the line arrives as a gfapy.Line instance (its class was chosen from the text alone)
+        g.process_line_queue()
     elif entry == "file":
         import tempfile, os
         fd, path = tempfile.mkstemp(suffix=".gfa")
@@ -54,7 +59,7 @@ def check(case):
     outcomes = {}
     for perm in itertools.permutations(kinds):
         lines = [KIND[k] for k in perm]
-        for entry in ("add", "init", "file"):
+        for entry in ("add", "init", "file", "objects"):
             try:
                 g = build(lines, explicit, entry)
                 out = g.version
@@ -100,6 +105,6 @@ if __name__ == "__main__":
     res = harness.run(cs, check,
                       rule="every set of <=%d of the %d line kinds (headers without/with VN 1.0/2.0/3.0, GFA1/GFA2 segment syntax, L C P, E G F O U, comment) x explicit version None/gfa1/gfa2, "
                            "in ALL orders of its lines (added one by one, then process_line_queue); oracle: version = function of the set of kinds, VersionError iff GFA1 and GFA2 evidence are mixed or the VN is unknown; "
-                           "every order and every entry point (add_line one by one, Gfa(list), Gfa.from_file) must give the same outcome; every line is in the Gfa exactly once. one evaluation = one set with all its orders" % (3 if tier == "quick" else 4, len(KIND)),
+                           "every order and every entry point (add_line of strings one by one, of gfapy.Line instances one by one, Gfa(list), Gfa.from_file) must give the same outcome; every line is in the Gfa exactly once. one evaluation = one set with all its orders" % (3 if tier == "quick" else 4, len(KIND)),
                       bound="sets of <=%d kinds, all permutations" % (3 if tier == "quick" else 4), exhaustive=True)
     harness.emit(res)
